@@ -232,7 +232,7 @@ func c07R2(p *core.Program, r *core.Report, pl *pipeline) {
 
 func c07R3(p *core.Program, r *core.Report, pl *pipeline) {
 	const rule = "R3"
-	r.Floor(rule, 2)
+	r.Floor(rule, 3)
 	s := pl.save
 	info := s.Info()
 	ok := false
@@ -244,6 +244,53 @@ func c07R3(p *core.Program, r *core.Report, pl *pipeline) {
 		}
 	}
 	r.Check(ok, rule, s, "the sum file is written at <Dir>/gengo.sum", s.Node().Pos(), "filepath.Join(f.Dir, \"gengo.sum\")", "Save writes to another path than Join(Dir, \"gengo.sum\")")
+	// the loaded file carries the directory it was loaded from: Execute adopts the loaded
+	// file's Dir for the file it saves, so every non-nil *File that Load returns must have
+	// Dir == Load's own directory parameter (a zero File would move gengo.sum to the working directory)
+	if ld := p.FuncByName("pkg/sumfile", "Load"); ld == nil {
+		r.Anchor(rule, "pkg/sumfile.Load")
+	} else {
+		lf := flatten(p, ld)
+		linfo := lf.Info()
+		var dirParam *types.Var
+		if ps := ld.Decl.Type.Params.List; len(ps) == 1 && len(ps[0].Names) == 1 {
+			dirParam, _ = linfo.ObjectOf(ps[0].Names[0]).(*types.Var)
+		}
+		n := 0
+		ast.Inspect(lf.Body, func(node ast.Node) bool {
+			if _, isLit := node.(*ast.FuncLit); isLit {
+				return false
+			}
+			ret, isRet := node.(*ast.ReturnStmt)
+			if !isRet || len(ret.Results) != 2 {
+				return true
+			}
+			if id, isID := ast.Unparen(ret.Results[0]).(*ast.Ident); isID && id.Name == "nil" {
+				return true
+			}
+			n++
+			e, _ := core.Resolve(linfo, lf.Body, ret.Results[0])
+			if u, isU := ast.Unparen(e).(*ast.UnaryExpr); isU && u.Op == token.AND {
+				e = u.X
+			}
+			good := false
+			if cl, isCL := ast.Unparen(e).(*ast.CompositeLit); isCL {
+				for _, el := range cl.Elts {
+					if kv, isKV := el.(*ast.KeyValueExpr); isKV {
+						if id, isID := kv.Key.(*ast.Ident); isID && id.Name == "Dir" && dirParam != nil && core.CanonVarOf(linfo, lf.Body, kv.Value) == dirParam {
+							good = true
+						}
+					}
+				}
+			}
+			r.Check(good, rule, ld, "a loaded sum file records the directory it was loaded from", ret.Pos(), "returns &File{Dir: <directory parameter>, ...}",
+				"Load can return a file whose Dir is not the directory it was asked to load from: Execute adopts that Dir for the file it saves, so gengo.sum is written somewhere else (an empty Dir means the process working directory)")
+			return true
+		})
+		if n == 0 {
+			r.Anchor(rule, "a return of a loaded file in pkg/sumfile.Load")
+		}
+	}
 	// Save is reached only under All
 	e := pl.execute
 	einfo := e.Info()
